@@ -9,14 +9,15 @@ def rdiv(x, l):
 
 class C01(Prop):
     pid = "C01"
-    lean_targets = ["M17.Props.C01", "M17.Props.C01F"]
+    lean_targets = ["M17.Props.C01", "M17.Props.C01F", "M17.Props.C13T", "M17.Props.C14T"]
     theorems = ["M17.C01.any_path_ge_base", "M17.C01.sent_path_eq_base", "M17.C01.other_path_gt", "M17.C01.viterbi_clean_exact",
                 "M17.C01.geometries_no_double_erasure",
                 "M17.C01F.dc_bridge", "M17.C01F.condition_image", "M17.C01F.punct_eq", "M17.C01F.geometries_noDouble",
                 "M17.C01F.depunct_consistent", "M17.C01F.fec_clean", "M17.C01F.pack_bitsOfBytes",
                 "M17.C01F.lsf_roundtrip", "M17.C01F.stream_roundtrip", "M17.C01F.packet_roundtrip", "M17.C01F.bert_roundtrip",
                 "M17.C01F.lich_roundtrip", "M17.C01F.lich_callback",
-                "M17.C01F.lsf_cost_zero", "M17.C01F.stream_cost_zero", "M17.C01F.packet_cost_zero", "M17.C01F.softAt_image"]
+                "M17.C01F.lsf_cost_zero", "M17.C01F.stream_cost_zero", "M17.C01F.packet_cost_zero", "M17.C01F.softAt_image",
+                "M17.C13T.m17mod_lsf_decodes", "M17.C13T.m17mod_stream_decodes", "M17.C14T.modulator_lsf_decodes", "M17.C14T.modulator_stream_decodes"]
     level_text = ("Lean 4 frame-level theorems (M17.Props.C01F) about the decoder model Dec.step fed with ANY clean soft image (correct signs, "
                   "per-position magnitudes 1..7) of a frame built by the independent specification encoder Spec.Tx (convolutional code, puncture, "
                   "interleave, randomize; Golay + LICH packing): lsf_roundtrip (every 30-byte LSF, every decoder state: the 30 bytes are decoded "
@@ -28,8 +29,11 @@ class C01(Prop):
                   "condition_image (de-randomize + de-interleave undo the spec's interleave + randomize on soft values), punct_eq (spec puncturing = "
                   "the code's loop), depunct_consistent + geometries_noDouble (kernel evaluation: no trellis step of the four geometries loses both "
                   "bits), viterbi_clean_exact (the transmitted path is the unique minimum, any width/length), pack_bitsOfBytes, Golay zero-error "
-                  "decode. The three transmitters: Spec.Tx is the independent encoder; m17-mod and M17Modulator are shown byte-equal to Spec.Tx "
-                  "frames in C13/C14 and are decoded in-process here.")
+                  "decode. The three transmitters: Spec.Tx is the independent encoder; the models of m17-mod's and M17Modulator's "
+                  "frame builders (TxMod, TxModulator — written as the code is written, tied to the code by C13/C14's streams) are PROVED equal to Spec.Tx "
+                  "frames (C13T.sendLsf_eq_spec / streamFrame_eq_spec, C14T.sendLinkSetup_eq_spec / streamFrame_eq_spec), giving m17mod_*_decodes and "
+                  "modulator_*_decodes: every LSF and stream frame either transmitter emits, received as any clean soft image, is decoded bit-exact. "
+                  "(m17-mod's BERT frames are compared with Spec.Tx.bertFrame by correspondence in C13.)")
     design_ref = "DESIGN.md §5 C01"
     level_note = ("Trusted: Lean kernel; the hand-written decoder model (tied to M17FrameDecoder by the dec-clean correspondence on every run) and "
                   "the specification encoder Spec.Tx (tied bit-for-bit to the python and C++ specification encoders and, through C13/C14, to the "
